@@ -142,12 +142,16 @@ func verifC10MetaEq(a, b map[string]string) bool {
 	return true
 }
 
-func TestVerifC10(t *testing.T) {
-	verifC10Run(t, false, false)
-	verifC10Run(t, true, false)
-	if mc.Thorough() && boson.Branches <= 64 {
-		verifC10Run(t, false, true) // longer sequences over a smaller alphabet
+// one Test function per harness (a replay file addresses one harness)
+func TestVerifC10Plain(t *testing.T)     { verifC10Run(t, false, false) }
+func TestVerifC10Encrypted(t *testing.T) { verifC10Run(t, true, false) }
+
+// longer sequences over a smaller alphabet (thorough tier, scaled geometry)
+func TestVerifC10SmallAlphabet(t *testing.T) {
+	if !mc.Thorough() || boson.Branches > 64 {
+		t.Skip("thorough tier, scaled geometry only")
 	}
+	verifC10Run(t, false, true)
 }
 
 func verifC10Run(t *testing.T, encrypted, small bool) {
@@ -199,6 +203,7 @@ func verifC10Run(t *testing.T, encrypted, small bool) {
 		m, err := NewDefaultManifest(ls, encrypted)
 		x.NoErr(err, "NewDefaultManifest")
 		model := map[string]verifC10Val{}
+		ever := map[string]bool{} // every path added so far
 
 		// History predicates (computed from the operations and the reference map only). They name the
 		// situation a violation follows, so that distinct defects get distinct keys; a violation in a
@@ -309,13 +314,15 @@ func verifC10Run(t *testing.T, encrypted, small bool) {
 				}
 			}
 			if hz.stored {
-				// the path is an entry or a proper prefix of one: it may name an existing (stored) trie node
-				for k := range model {
+				// the path is, or is a prefix of, a path that was added at some time (also one removed
+				// again: its branching point may remain): it may name an existing stored trie node
+				for k := range ever {
 					if strings.HasPrefix(k, p) {
 						hz.addOnStored = true
 					}
 				}
 			}
+			ever[p] = true
 			if len(ref) > 0 {
 				hz.realRefSinceLoad = true
 			} else if !hz.realRefSinceLoad {
@@ -410,7 +417,12 @@ func verifC10Run(t *testing.T, encrypted, small bool) {
 			}
 			var b strings.Builder
 			b.WriteString(verifC10ModelKey(model))
-			fmt.Fprintf(&b, "|%+v|", hz)
+			var ek []string
+			for k := range ever {
+				ek = append(ek, k)
+			}
+			sort.Strings(ek)
+			fmt.Fprintf(&b, "|%+v|%v|", hz, ek)
 			verifC10Dump(reflect.ValueOf(m.(*mantarayManifest).trie), !encrypted, &b)
 			if encrypted {
 				x.State(b.String())
